@@ -429,7 +429,11 @@ func newRig(cd caseDesc, db *badger.DB) *rig {
 		if cd.Typed {
 			st.SetType(item{})
 		}
-		st.SetPrefix(cd.Prefix)
+		// SetPrefix replaces an earlier prefix (also by the empty one); Type() is the zero value of the store's type
+		st.SetPrefix("zz").SetPrefix(cd.Prefix)
+		if ty := st.Type(); (cd.Typed && ty != interface{}(item{})) || (!cd.Typed && fmt.Sprintf("%T|%v", ty, ty) != "map[string]interface {}|map[]") {
+			r.note(fmt.Sprintf("Type() returned %T %v", ty, ty))
+		}
 		for k := 1; k <= cd.nl(); k++ {
 			k := k
 			st.BeforeChange(func(id string, before, after interface{}) error { return r.beforeChange(k, id, before, after) })
